@@ -13,7 +13,7 @@ ALLOC_BASE = 1_000_000
 
 
 class Path:
-    __slots__ = ("env", "pc", "facts", "heap", "ghost", "notes", "alloc", "sets", "dicts", "tainted", "trace", "fresh")
+    __slots__ = ("env", "pc", "facts", "heap", "ghost", "notes", "alloc", "sets", "dicts", "tainted", "trace", "fresh", "eqs")
 
     def __init__(self):
         self.env = {}
@@ -28,6 +28,7 @@ class Path:
         self.tainted = set()
         self.trace = []     # branch decisions, for witnesses
         self.fresh = {}     # (field, concrete oid) -> V term: fields of objects allocated on this path
+        self.eqs = []       # (term, literal) equalities known from branch conditions (cheap pruning)
 
     def fork(self):
         p = Path()
@@ -43,6 +44,7 @@ class Path:
         p.tainted = set(self.tainted)
         p.trace = list(self.trace)
         p.fresh = dict(self.fresh)
+        p.eqs = list(self.eqs)
         return p
 
     def hyps(self):
@@ -54,7 +56,11 @@ class Path:
         f = z3.simplify(f)
         if z3.is_true(f):
             return
-        self.facts.append(f)
+        if z3.is_and(f):
+            for c in f.children():
+                self.facts.append(c)
+        else:
+            self.facts.append(f)
         if note and note not in self.notes:
             self.notes.append(note)
 
